@@ -37,7 +37,7 @@ ALPHABET = ['app1', 'app2x', 'applist', 'appscalar', 'app0', 'iter2', 'iter0', '
             'itergen', 'set', 'ctx:app1+app1', 'trunc0', 'trunc1', 'truncm1', 'truncbelow', 'trunclen',
             'truncstr', 'badshape', 'badrank', 'modecycle', 'reopen']
 # additional ops for long random histories
-EXTRA = ['appF', 'appF', 'ctx:iterfail_shape+app1', 'ctx:app1+iterfail_raise+app3', 'ctx:app3+truncm1+app1', 'ctx:app3+trunc1', 'badshape0', 'badrank0', 'md_bad', 'ctx:app1+iterfail_shape', 'ctx:app3+iterfail_raise', 'ctx:app1+app1+app1', 'ctx:set+iter2', 'ctx:applist+app2x', 'ctx:app0+app1', 'ctx:set+app3', 'app_zerod', 'iterfail_shape', 'iterfail_raise', 'iterfail_first', 'setscalar', 'trunclen1', 'truncfloat', 'truncmid', 'truncneg2', 'app3',
+EXTRA = ['appF', 'appF', 'ctx:iterfail_shape+app1', 'ctx:app1+iterfail_raise+app3', 'ctx:app3+truncm1+app1', 'ctx:app3+trunc1', 'badshape0', 'badrank0', 'badshape_perm', 'md_bad', 'ctx:app1+iterfail_shape', 'ctx:app3+iterfail_raise', 'ctx:app1+app1+app1', 'ctx:set+iter2', 'ctx:applist+app2x', 'ctx:app0+app1', 'ctx:set+app3', 'app_zerod', 'iterfail_shape', 'iterfail_raise', 'iterfail_first', 'setscalar', 'trunclen1', 'truncfloat', 'truncmid', 'truncneg2', 'app3',
          'recreate', 'recreate_fill', 'md_set', 'md_pop', 'md_clear', 'itergen3', 'copy', 'copycast']
 STARTS = [(0,), (3,), (0, 2), (2, 2), (2, 1, 3)]
 
@@ -68,7 +68,12 @@ def build(op, ref, rng, meta):
     n = ref.shape[0]
 
     def rows(k):
-        return gens.random_values(rng, dtype, (k,) + trail)
+        x = gens.random_values(rng, dtype, (k,) + trail)
+        if dtype.itemsize > 1 and rng.random() < 0.3:
+            # the same values as an ndarray of the same numeric type in the OPPOSITE byte order (seeds C02-21, C03-21:
+            # a conversion skipped when dtype.name matches writes unswapped bytes)
+            x = x.astype(dtype.newbyteorder('S'))
+        return x
 
     if op.startswith('ctx:'):
         # several valid operations performed inside ONE open_array() context of the same object
@@ -205,6 +210,10 @@ def build(op, ref, rng, meta):
         return REJECT, lambda D, a, p: (a.metadata.update({'bad': {1.5, 2.5}, 'fine': 1}), a)[1]
     if op == 'badshape':
         bad = (1,) + (trail[:-1] + (trail[-1] + 1,) if trail else (2,))
+        x = np.zeros(bad, dtype=dtype)
+        return REJECT, lambda D, a, p: (a.append(x), a)[1]
+    if op == 'badshape_perm':  # same rank and row size, other trailing shape (only distinct for >= 2 trailing axes)
+        bad = (1, int(np.prod(trail))) + (1,) * (len(trail) - 1) if len(trail) >= 2 else (1,) + ((trail[0] + 1,) if trail else (2,))
         x = np.zeros(bad, dtype=dtype)
         return REJECT, lambda D, a, p: (a.append(x), a)[1]
     if op == 'badrank':
